@@ -32,16 +32,13 @@ func (rl *RangeList) IsSlotInList(key string) bool {
 		return false
 	}
 
-	left, right := 0, len(rl.list)-1
-	for left <= right {
-		mid := left + (right-left)/2
-		if rl.list[mid].Left <= keySlot {
-			if keySlot <= rl.list[mid].Right {
-				return true
-			}
-			left = mid + 1
-		} else {
-			right = mid - 1
+	// ranges may overlap or be nested, so a binary search over the left bounds is not enough
+	for _, r := range rl.list {
+		if r.Left > keySlot { // sorted by left bound
+			break
+		}
+		if keySlot <= r.Right {
+			return true
 		}
 	}
 	return false
